@@ -116,6 +116,9 @@ def alpha_cfg(draw, kinds, assets, long_only):
     if k == 'fixed':
         keys = [a for a in assets if draw(st.sampled_from([True, True, True, False]))]
         return {'kind': 'fixed', 'weights': {a: weight_value(draw, long_only) for a in keys}}
+    if k == 'cycle':
+        n = draw(st.sampled_from([2, 2, 3]))
+        return {'kind': 'cycle', 'vectors': [{a: weight_value(draw, long_only) for a in assets} for _ in range(n)]}
     if k == 'single':
         s = draw(st.sampled_from([1.0, 1.0, 0.5, 2.0]))
         return {'kind': 'single', 'signal': s if long_only or draw(st.booleans()) else -s}
